@@ -451,6 +451,32 @@ impl VisitMut for Rw {
                 }
             }
         }
+        // R31: Result::or_else / Result::map_err... with a closure that performs I/O (definition of the combinator):
+        //   X.or_else(|p| BODY)  ->  match X { Ok(v) => Ok(v), Err(p) => BODY }
+        //   X.map(|p| BODY)      ->  match X { Ok(p) => Ok(BODY), Err(e) => Err(e) }      (only when BODY performs I/O)
+        if (self.o.world || self.o.worldself) {
+            if let Expr::MethodCall(mc) = e {
+                let m = mc.method.to_string();
+                if (m == "or_else" || m == "map" || m == "and_then") && mc.args.len() == 1 && !(m == "and_then" && self.o.r28) {
+                    if let Expr::Closure(c) = &mc.args[0] {
+                        let bt = c.body.to_token_stream().to_string();
+                        let io = bt.contains("fs ::") || self.o.worldfns.iter().any(|f| bt.contains(&format!("{} (", f)) || bt.contains(&format!("{} ::", f)));
+                        if c.inputs.len() == 1 && io {
+                            let recv = (*mc.receiver).clone(); let pat = c.inputs[0].clone(); let body = (*c.body).clone();
+                            self.bump("R31");
+                            let mut ne: Expr = match m.as_str() {
+                                "or_else" => parse_quote!(match #recv { Ok(__v) => Ok(__v), Err(#pat) => #body }),
+                                "map" => parse_quote!(match #recv { Ok(#pat) => Ok(#body), Err(__e) => Err(__e) }),
+                                _ => parse_quote!(match #recv { Ok(#pat) => #body, Err(__e) => Err(__e) }),
+                            };
+                            self.visit_expr_mut(&mut ne);
+                            *e = ne;
+                            return;
+                        }
+                    }
+                }
+            }
+        }
         // R29: Result::unwrap_or_else with a closure that terminates the process (definition of unwrap_or_else);
         // keeps the exit in the enclosing function, where the process state is in scope
         if let Expr::MethodCall(mc) = e {
